@@ -92,7 +92,7 @@ CHECKS["C14"] = dict(
     note="Trusted: TLC; the abstract projection (exact rationals for the cell-size ratio); composition of the two library calls as in package main, cross-checked through the binary for built-ins.")
 CHECKS["C15"] = dict(
     category="model_checking", design_ref="DESIGN.md §7 C15",
-    technique="integer TLA+ model of FromNative / ToNative / bounding box for both corner conventions checked exhaustively by TLC (TileAddr.tla); ~19000 records of the real functions on all built-in sets and matrices (plus synthetic northing/easting documents) judged by TileAddrTrace.tla, the expected x,y order taken from the document's own orderedAxes",
+    technique="integer TLA+ model of FromNative / ToNative / bounding box for both corner conventions checked exhaustively by TLC (TileAddr.tla); ~19000 records of the real functions on all built-in sets and matrices (plus synthetic northing/easting documents) judged by TileAddrTrace.tla, the expected x,y order taken from the document's own orderedAxes; Apalache establishes the same rules without bounds (TileAddrInt.tla)",
     text="Design: every matrix up to 4x3, both corner conventions, 9 origins, every tile and 9 interior points: point-in-tile finds its tile, outside finds none, bounding box spans the corners. Code: for every built-in set, every matrix without variable widths, corner/border/sampled tiles x interior points, outside points, corner positions against origin + index x tile size in x,y order.",
     note="Trusted: TLC; float tolerance 16 ulp + 1e-8 (the API rounds to 9 decimals).")
 
